@@ -165,11 +165,21 @@ def prepare(ctx):
 
     def add(base, fmt, extra, end_year, what):
         end = ("1231%d" if fmt == "EN" else "3112%d") % end_year
-        lines.append({"line": "%s %s EndDate=%s resultfolder=R/c20_%d" % (base, extra, end, len(lines)), "what": what})
+        mode = "@gw=series" if "project=ex3 " in base else "@gw=polygon"       # GroundWaterFrom of the project's config.yml
+        lines.append({"line": "%s %s EndDate=%s resultfolder=R/c20_%d %s" % (base, extra, end, len(lines), mode), "what": what})
     ex3, zuc, rue = TRACE[0][0], TRACE[1][0], TRACE[2][0]
     add(ex3, "EN", "", endy, {"series": "shipped"})
     for sr in series:
         add(ex3, "EN", "gwId=%s" % sr["id"], 1981, {"series": sr["kind"], "id": sr["id"], "records": sr["records"]})
+    # run PAIRS in one session (batch mode; the pattern of examples/ex3_muencheberg_batch.txt): same soilId, different
+    # gwId / with and without gwId, in both orders; each run must follow the file's series of ITS OWN id
+    by_kind = {sr["kind"]: sr["id"] for sr in series}
+    pairs = [(by_kind["ends-mid-run"], by_kind["covers-run"]), (by_kind["covers-run"], by_kind["ends-mid-run"]),
+             (None, by_kind["plateau"]), (by_kind["plateau"], None), (by_kind["single"], by_kind["starts-late"])]
+    for k, pr in enumerate(pairs if ctx.thorough else pairs[:4]):
+        for j, gid in enumerate(pr):
+            add(ex3, "EN", ("gwId=%s " % gid if gid else "") + "@session=%d" % k, 1981,
+                {"series": "pair-in-one-session", "id": gid or "075", "position": j + 1, "with": pr[1 - j] or "075 (no gwId)"})
     add(zuc, "DE", "@config-phase=%d @phase=%d" % (conf["zuc"], conf["zuc"]), endy, {"phase": conf["zuc"], "via": "config.yml"})
     add(rue, "DE", "@config-phase=%d @phase=%d" % (conf["rue"], conf["rue"]), endy, {"phase": conf["rue"], "via": "config.yml"})
     # the boundary phases, each from config.yml and from the command line (the config then holds another value)
@@ -233,6 +243,9 @@ def correspond(ctx):
     for r_ in runs:
         if not r_["success"] or r_["days"] == 0:
             c.mismatches.append({"kind": "traced-run-failed", "run": r_})
+        if r_.get("source_mismatch_days"):
+            c.mismatches.append({"kind": "groundwater-source (the run does not use the configured GroundWaterFrom)", "run": r_,
+                                 "line": plan[r_["line"]]["line"]})
     series = [x for x in rows if x["k"] == "gwseries"]
     for x in series:
         x["dates"], x["vals"] = x["dates"] or [], x["vals"] or []
@@ -301,6 +314,8 @@ def correspond(ctx):
             "phase < 0": any(x["phase"] < 0 for x in sins), "phase >= 365": any(x["phase"] >= 365 for x in sins),
             "a plateau (equal consecutive levels, then a change) inside a run": any(x["plateau_rows"] > 0 for x in cover),
             "duplicate dates": any(x["duplicate_dates"] > 0 for x in cover)}
+    need["a single-record series"] = any(x["records"] == 1 for x in cover)
+    need["run pairs in one session"] = sum(1 for r_ in runs if r_.get("shared_session")) >= 8
     for ph in BOUNDARY_PHASES:
         for via in ("config.yml", "command line"):
             if not any(x["line"] >= 0 and x["phase"] == ph and plan[x["line"]]["what"].get("via") == via for x in sins):
